@@ -66,7 +66,7 @@ def sensitivity(args):
     meta_props = {}
     for f in files:
         name = os.path.basename(f).rsplit(".", 1)[0]
-        if only and only not in name:
+        if name.endswith(".meta") or name == "LAST_RESULT" or (only and only not in name):
             continue
         if f.endswith(".json"):
             m = json.load(open(f))
